@@ -91,6 +91,10 @@ pub enum Fault {
     /// the caller's code is slow: a real sleep of `ms` milliseconds at the n-th seam of that kind
     /// (the library has no clock seam; whatever reads the wall clock sees a stalled caller)
     Stall { seam: SeamKind, n: u32, ms: u32 },
+    /// the clock jumps when this operation starts: the wall clock shows `wall_s` (seconds since the
+    /// Unix epoch) and every clock read from now on advances simulated time by `step_us`
+    /// (the clock seam, /verif/simclock; a no-op when the shim is not loaded)
+    Clock { wall_s: i64, step_us: u64 },
 }
 
 impl Fault {
@@ -98,7 +102,7 @@ impl Fault {
         match self {
             Fault::IterPanic { .. } | Fault::CbPanic { .. } => true,
             Fault::Write { fault } => fault.is_hard(),
-            Fault::Reenter { .. } | Fault::Stall { .. } => false,
+            Fault::Reenter { .. } | Fault::Stall { .. } | Fault::Clock { .. } => false,
         }
     }
 }
@@ -225,7 +229,7 @@ pub const EXT_ALL: u32 = (1 << 1) | (1 << 3) | (1 << 5) | (1 << 6) | (1 << 7) | 
 pub const EXT_COMPAT: u32 = EXT_ALL & !(1 << 10);
 const EXT_BITS: &[u32] = &[1 << 1, 1 << 3, 1 << 5, 1 << 6, 1 << 7, 1 << 9, 1 << 10, (1 << 11) | (1 << 1)];
 
-fn gen_cfg(r: &mut Rng) -> ParserCfg {
+pub fn gen_cfg(r: &mut Rng) -> ParserCfg {
     if r.chance(1, 6) {
         // a converter built through ConverterBuilder from the bundled units plus a layer
         return ParserCfg { ext_bits: if r.chance(2, 3) { EXT_ALL } else { EXT_COMPAT }, converter: if r.chance(1, 2) { "custom-de" } else { "custom-si" }.into() };
@@ -482,6 +486,23 @@ pub fn gen_scenario(run_seed: u64, pool: &Pool) -> Scenario {
             // the same text at another address
             if fr.chance(1, 3) {
                 op.align = fr.range(1, 7) as u8;
+            }
+            // a clock jump at the start of the operation: another date (day, half of the year, century,
+            // the epoch itself, the 2038 boundary, the last second of a year) and another speed of time
+            if fr.chance(1, 8) {
+                let wall_s = *fr.pick(&[
+                    crate::clock::EPOCH_A + 86_400,
+                    crate::clock::EPOCH_A + 200 * 86_400,
+                    crate::clock::EPOCH_A - 20 * 365 * 86_400,
+                    2_400_000_000,
+                    0,
+                    2_147_483_647,
+                    951_782_400,
+                    1_798_761_599,
+                    crate::clock::EPOCH_A + 13 * 3600 + 59 * 60 + 59,
+                ]);
+                let step_us = *fr.pick(&[0u64, 1, 1, 1_000, 50_000, 10_000_000]);
+                op.faults.push(Fault::Clock { wall_s, step_us });
             }
             // a stalled caller, mostly on big inputs (time budgets, expiring caches)
             let big = inputs[op.input].len() > 40_000;
